@@ -71,6 +71,10 @@ def step (d : DSt) : List String → DSt × String
       match dep.toNat?, p.toNat?, parseRat r with
       | some dep, some p, some r => ({ d with env := { d.env with sizes := assocSet d.env.sizes (dep, p) r } }, "ok")
       | _, _, _ => (d, "bad-op")
+  | ["fail", dep, p] =>
+      match dep.toNat?, p.toNat? with
+      | some dep, some p => ({ d with env := { d.env with failing := (dep, p) :: d.env.failing } }, "ok")
+      | _, _ => (d, "bad-op")
   | ["stack", i, s] =>
       match i.toNat?, parseStack s with
       | some i, some st => ({ d with stacks := assocSet d.stacks i st }, "ok")
